@@ -27,6 +27,13 @@ def evStr : Ev → String
   | Ev.value j t => s!"value j{j} t{t}"
   | Ev.flagBlock t f => s!"s {t} flag-block f{f}"
   | Ev.flagSet f t => s!"flag-set f{f} t{t}"
+  | Ev.unlockB t => s!"s {t} unlock mxB"
+  | Ev.cvBlockB t => s!"s {t} cv-block cvB"
+  | Ev.stopBBegin t => s!"stopB-begin t{t}"
+  | Ev.stopBEnd t => s!"stopB-end t{t}"
+  | Ev.destroyBBegin t => s!"destroyB-begin t{t}"
+  | Ev.destroyedB t => s!"destroyedB t{t}"
+  | Ev.destroyBSkip t => s!"destroyB-skip t{t}"
   | Ev.stopBegin t => s!"stop-begin t{t}"
   | Ev.stopEnd t => s!"stop-end t{t}"
   | Ev.destroyBegin t => s!"destroy-begin t{t}"
@@ -44,6 +51,8 @@ def parsePrimList : List Char → List Prim
   | 'd' :: r => Prim.subDet :: parsePrimList r
   | 'D' :: r => Prim.destroy :: parsePrimList r
   | 'r' :: r => Prim.react :: parsePrimList r
+  | 'b' :: r => Prim.stopB :: parsePrimList r
+  | 'B' :: r => Prim.destroyB :: parsePrimList r
   | _ :: r => parsePrimList r
 
 def parsePrims (w : String) : List Prim × Bool :=
@@ -52,6 +61,8 @@ def parsePrims (w : String) : List Prim × Bool :=
 def parseOp (w : String) : Option Act :=
   if w == "stop" then some Act.stop
   else if w == "destroy" then some Act.destroy
+  else if w == "stopB" then some Act.stopB
+  else if w == "destroyB" then some Act.destroyB
   else
     match w.splitOn ":" with
     | [k] => (parseKind k).map (fun kd => Act.submit kd [] false)
@@ -86,8 +97,10 @@ def runCase (hdr : List String) (body : List (List String)) : List String := Id.
   let cls := body.filter (fun w => w.head? == some "c")
   let sched := (body.filter (fun w => w.head? == some "sched")).flatMap (fun w => (w.drop 1).filterMap String.toNat?)
   let scripts := (cls.map (fun w => (w.drop 1).filterMap parseOp)).toArray
-  let nt := nw + cls.length
-  let cfg : Cfg := { nw := nw, nt := nt, script := fun t => scripts[t - nw]?.getD [],
+  let hasB := hdr.contains "B"
+  let nc0 := nw + (if hasB then 1 else 0)
+  let nt := nc0 + cls.length
+  let cfg : Cfg := { nw := nw, nt := nt, script := fun t => scripts[t - nc0]?.getD [], hasB := hasB,
                      raOwns := !hdr.contains "asis-ra", dtorOutside := !hdr.contains "asis-dtor",
                      cvYield := hdr.contains "cvy" }
   let (s, out, stuck) := runSched cfg (init cfg) sched #[] 100000
@@ -102,6 +115,9 @@ def runCase (hdr : List String) (body : List (List String)) : List String := Id.
     lines := lines.push s!"job j{j} {kindStr (s.kind j)} ran={s.ran j} cancelled={s.cancelled j} value={s.valued j} on={on} fut={futStr (s.fut j)}"
   if s.destroyed then lines := lines.push "pool destroyed"
   else lines := lines.push s!"pool exit={b01 s.exit} queue={s.q.length} threads={s.threads.length}"
+  if hasB then
+    if s.bDestroyed then lines := lines.push "poolB destroyed"
+    else lines := lines.push s!"poolB exit={b01 s.bExit} threads={if s.bHasThread then 1 else 0}"
   return (lines.toList ++ ["end"])
 
 partial def loop (lines : Array String) (i : Nat) (hdr : List String) (body : List (List String)) : IO Unit := do
